@@ -169,6 +169,9 @@ def fortran_term(text, env):
             return H.UF1("log", vals[0]), False
         if name in ("log10", "dlog10"):
             return H.UF1("log10", vals[0]), False
+        # generic intrinsics that have the same name and meaning in C's libm
+        if name in SAME_NAME_INTRINSICS:
+            return H.UF1(name, vals[0]), False
         raise FortranError(f"intrinsic {name} not modelled")
 
     v = expr()
@@ -189,6 +192,7 @@ def reference_env(T, users, y):
 LITS = ["2", "3", "2.5", "1d-9", "3.e0", "1.5e3", "0.5d0"]
 VARS = ["Tgas", "T32", "invT", "lnTe", "user_a", "sqrTgas", "invTe"]
 FUNCS = ["exp", "sqrt", "log"]
+SAME_NAME_INTRINSICS = ("sin", "cos", "tan", "asin", "acos", "atan", "sinh", "cosh", "tanh", "asinh", "acosh", "atanh")
 REFS = ["n(idx_H)", "n(idx_D)"]
 
 
@@ -234,7 +238,10 @@ def gen_exprs(n, seed, depth=3):
     base = ["Tgas**2**3", "2**3**2", "T32**invT**2", "-Tgas**2", "-Tgas**0.5d0", "2*-3.0", "Tgas**-0.5", "1d-9*T32**(-0.5)*exp(-3.0d2*invT)", "3/2*Tgas", "Tgas**(1/2)", "Tgas**(1d0/2d0)",
             "1.2d-10/(Tgas/3.d2)", "user_a/(n(idx_H)/user_crflux)", "Tgas/(T32/2.d0/user_a)", "2.d0*(Tgas/3.d0)", "Tgas-(T32-invT)", "Tgas/(T32*invT)", "Tgas-(T32+invT)", "user_a*Tgas/(sqrTgas/invTe/2.d0)",
             "(Tgas/3.d2)**(-0.5d0)", "Tgas/(user_a)", "Tgas/(2.d0)/(3.d0)", "exp(-(Tgas/1.d2))", "sqrt((Tgas/1.d2))/(T32/(invT/2.d0))", "n(idx_H)*2.5d-10", "n(idx_H2)*1d-9", "n(idx_Hp)*1d-9", "n(idx_Hm)*1d-9", "n(idx_E)*1d-9", "n(idx_HE)*1d-9", "exp(-32.71396786d0+13.5365560d0*lnTe-5.73932875d0*(lnTe**2))",
-            "1.4d-18*Tgas**0.928d0*exp(-Tgas/16200.)", "dexp(-4.4d0*lnTe)", "3.92d-13*invTe**0.6353d0", "(T32)**(-0.5)", "2.5d0**Tgas", "sqrt(Tgas)*sqrTgas", "user_a*user_crflux/1.3d-17", "1.d0/Tgas", "2.e-10", ".5d0*Tgas", "Tgas-2", "Tgas -2", "Tgas+-2"]
+            "1.4d-18*Tgas**0.928d0*exp(-Tgas/16200.)", "dexp(-4.4d0*lnTe)", "3.92d-13*invTe**0.6353d0", "(T32)**(-0.5)", "2.5d0**Tgas", "sqrt(Tgas)*sqrTgas", "user_a*user_crflux/1.3d-17", "1.d0/Tgas", "2.e-10", ".5d0*Tgas", "Tgas-2", "Tgas -2", "Tgas+-2",
+            # trigonometric / hyperbolic intrinsics and their inverses (same names in Fortran and C)
+            "2.1d-10*atan(Tgas/1.d3)", "asin(invT)", "acos(T32/(1.d0+T32))", "sinh(lnTe)*1d-12", "tanh(Tgas/1d4)", "cos(Tgas/1.d2)+sin(Tgas/1.d2)", "atanh(invT/2.d0)", "1d-9*tan(invT)", "asinh(T32)", "acosh(1.d0+T32)", "cosh(invTe)",
+            "dsqrt(Tgas)", "dlog10(Tgas)*1d-10", "dlog(Tgas)"]
     for e in base:
         if e not in seen:
             seen.add(e)
